@@ -29,7 +29,7 @@ ID = 'C08'
 MODULE = 'PyTough.Props.C08'
 TARGETS = ['PyTough.Props.C08', 'drv_c08']
 THEOREMS = ['Props.C08.' + t for t in [
-    'consistent_of_inv', 'inv_empty', 'inv_step_core', 'inv_run', 'consistent_after_any_history',
+    'consistent_of_inv', 'inv_empty', 'inv_step', 'inv_run', 'consistent_after_any_history',
     'rename_loses_no_block', 'rename_keeps_inv', 'grid_addition_consistent', 'embed_consistent',
     'block_index_correct', 'connection_index_correct',
     'Examples.F1_add_block_replaces_connected_block', 'Examples.F2_rocktype_replaced_while_in_use',
@@ -37,14 +37,15 @@ THEOREMS = ['Props.C08.' + t for t in [
 LEVEL_TEXT = ('Proof: the consistency invariant Inv (lists and lookups describe the same objects under unique current names, connections join two '
               'grid blocks and sit under their current name pair, each block has exactly the connection record of is exactly the connections that mention it, every rock '
               'type registered) is proved inductive in Lean for the executable heap model of t2grid: inv_step_core for add/delete block, connection, rock '
-              'type, rename_rocktype, clean/sort_rocktypes, demote_block, reorder, rename_blocks, minc under an explicit decidable precondition `pre`, '
-              'inv_run by induction over any history; grid addition and embed as theorems about two consistent grids in one heap; '
+              'type, rename_rocktype, clean/sort_rocktypes, demote_block, reorder, rename_blocks, minc, grid addition, embed and re-adding removed objects '
+              '(inv_step, all 20 operations of the alphabet) under an explicit decidable precondition `pre`, inv_run by induction over any history; '
+              'grid addition and embed also as theorems about any two consistent grids in one heap; '
               'rename_loses_no_block for every name map that keeps names distinct (swaps, cycles); block_index/connection_index correct. '
               'The three situations where the current code really breaks the invariant (F1 add_block over a connected name, F2 rock type replaced while '
               'in use, F3 delete_rocktype in use) are excluded by `pre`, proved to break Inv on a witness, replayed on the real code and listed as known findings. '
               'Tied to /repo by a correspondence run after every operation (exhaustive small scope + random histories on fromgeo grids) and an independent oracle.')
-LEVEL_NOTE = ('Partial: inv_step does not go through the recipe-built second grid of the .addGrid/.embed operations (the theorems grid_addition_consistent / '
-              'embed_consistent take consistency of the second grid and disjointness as hypotheses; the harness evaluates `pre` and checkInv on every explored case). '
+LEVEL_NOTE = ('`pre` excludes exactly: argument misuse (foreign objects, self-connection, non-permutation lists, name maps that collide - the last by the property text) '
+              'and the known findings F1-F3; every excluded class is run on the real code (corpus) and the harness reports how many explored cases met `pre`. '
               'Trusted: Lean kernel (+propext, Classical.choice, Quot.sound); the heap model (tied by correspondence, not proved equal to the Python); '
               'the rendering of "grid edits" as the op alphabet; Python sets modelled as duplicate-free lists.')
 TECHNIQUE = 'Lean 4 proof (invariant by induction over operation sequences) about an executable heap model of the t2grid registry + differential correspondence with the real t2grid after every operation'
